@@ -33,6 +33,15 @@ CHECKS['C09'] = dict(level='translation_validation', engine='lirsym/qbe', design
    technique='SMT-decided relational translation validation: IL of P vs IL of rewrite R(P), all parameter values, z3',
    text='For base templates (arithmetic, comparisons, control flow, composites, constant-expression forms) and four meaning-preserving rewrites (literal -> call, bind subexpression to a local, let -> const, wrap in if true {}) both programs are compiled by the fresh compiler; obligations: same accept/reject (apart from the documented constant-index rule) and, for every pair of IL paths, no input on which return value, termination or prints differ. Counterexamples are replayed on both native executables.',
    note=_TV_NOTE + ' No reference semantics is involved in C09. Compile-time rejection of overflowing constant expressions is not exercised.')
+_GO_NOTE = 'Trusted: z3; go/ssa; the gosym interpreter (x/tools ssa/interp extended with symbolic scalars/strings, validated by replaying witness models natively through the same harness); intrinsics for fmt, strings.Builder, bytealg, math/big, sync; harness oracles.'
+CHECKS['C11'] = dict(level='model_checking', engine='gosym', design='4/C11',
+   technique='symbolic execution of the Go kernels (go/ssa) with SMT-decided value witnesses; pair space explored exhaustively, z3',
+   text='checkTypeCompatibility / isImplicitlyCompatible / isLosslessNumericConversion are executed from their SSA for every ordered pair of the 17 numeric types (the pair is a symbolic choice; all 289 pairs explored). For each pair the compiler treats as implicit the solver decides whether the source type has a value the target cannot represent (integer ranges as SMT Int; significand witness family for floats; bit-precise cross-check on a symbolic 64-bit value). Exhaustive in the pair space.',
+   note=_GO_NOTE + ' Float formats as documented in the repository. That every assignment-like site consults this kernel is read from the call sites, not decided.')
+CHECKS['C20'] = dict(level='model_checking', engine='gosym', design='4/C20',
+   technique='bounded symbolic execution of the Go writer and parser (go/ssa) on symbolic strings/ints/keys, z3',
+   text='The real TOML writer and parser functions are executed symbolically: string values (all ASCII strings up to L=4 quick / 6 thorough in the writable domain), ints (|v|<100000 plus extremes), bools, float representatives, keys, inline comments and padding are symbolic; the solver decides that value and dynamic type survive the round trip and that parsing never panics on any ASCII content up to L bytes.',
+   note=_GO_NOTE + ' ASCII only; Scanner line splitting replaced by its documented behaviour; float digit generation and ParseFloat on symbolic text are not executed symbolically.')
 NA_DEFAULT = 'check not built yet (work in progress, see DESIGN.md section 11)'
 NA = {}
 
@@ -59,6 +68,7 @@ def main():
         'hooks': {'guard': 'verif', 'enable': 'no guarded code in /repo: Go harnesses are injected with go/packages overlays (symbolic run) and go test -overlay (native replay); the tag verif is reserved',
                   'baseline_off_cmd': 'cd /repo && go test -mod=mod -vet=off -count=1 -timeout 25m ./...', 'source_commits': [], 'add_only': True},
         'engines': [
+            {'name': 'gosym', 'path': 'gosym/', 'serves_properties': ['C03', 'C06', 'C07', 'C10', 'C11', 'C12', 'C13', 'C14', 'C15', 'C18', 'C19', 'C20'], 'kind_free_text': 'symbolic interpreter for go/ssa (Go, x/tools v0.50.0 ssa/interp extended with SMT terms, fork-by-replay, z3 -in)'},
             {'name': 'lirsym/qbe', 'path': 'lirsym/qbe.py', 'serves_properties': ['C01', 'C04', 'C05', 'C08', 'C09', 'C18'], 'kind_free_text': 'path-wise symbolic executor for the QBE IL the compiler emits (Python, z3 API)'},
         ],
         'checks': checks,
